@@ -71,6 +71,9 @@ type HarnessSpec struct {
 	BudgetAsViolation bool `json:"budget_as_violation,omitempty"`
 	MaxPreempt        int  `json:"max_preempt,omitempty"`
 	MaxPreemptThorough int `json:"max_preempt_thorough,omitempty"`
+	// DeathOnly: the programs of this harness do not terminate by construction; a path over the budget is replayed natively
+	// and only the DEATH of the process is a violation (running on is what the program means).
+	DeathOnly bool `json:"death_only,omitempty"`
 }
 
 type Index struct {
@@ -85,6 +88,12 @@ type KnownFinding struct {
 	Status   string `json:"status"` // "open" | "fixed"
 	What     string `json:"what"`
 	Commit   string `json:"commit,omitempty"`
+	// Match identifies a finding that shows as the death of the native process (no assertion region to attach it to) by
+	// the harness and the instances (= the specific inputs) that fail.
+	Match *struct {
+		Harness   string `json:"harness"`
+		Instances []int  `json:"instances"`
+	} `json:"match,omitempty"`
 }
 
 func main() {
@@ -207,6 +216,21 @@ func cmdWorker() int {
 }
 
 // ---- check ----
+
+// kfMatch returns the id of the open known finding that lists (harness, instance), if any.
+func kfMatch(kfs []KnownFinding, harness string, inst int) string {
+	for _, k := range kfs {
+		if k.Status != "open" || k.Match == nil || k.Match.Harness != harness {
+			continue
+		}
+		for _, i := range k.Match.Instances {
+			if i == inst {
+				return k.ID
+			}
+		}
+	}
+	return ""
+}
 
 func schedDependent(v interp.Violation) bool {
 	for _, d := range v.Decisions {
@@ -400,8 +424,10 @@ func cmdCheck(args []string) int {
 	var jobs []interp.Job
 	var specs []HarnessSpec
 	harnessPkg := map[string]string{}
+	deathOnly := map[string]bool{}
 	for _, h := range idx.Harnesses {
 		harnessPkg[h.Harness] = h.Pkg
+		deathOnly[h.Harness] = h.DeathOnly
 	}
 	for _, h := range idx.Harnesses {
 		if h.Property != prop {
@@ -591,6 +617,16 @@ func cmdCheck(args []string) int {
 				b, _ := json.MarshalIndent(v, "", " ")
 				os.WriteFile(path, b, 0o644)
 				verdict := rp.replay(path, harnessPkg[v.Harness])
+				if v.Kind == "budget" && deathOnly[v.Harness] && strings.Contains(verdict.Summary, "did not finish") {
+					fmt.Printf("note %s#%d: over the executor's budget; the native run keeps running (a non-terminating program, as written): not a violation\n", v.Harness, v.Instance)
+					continue
+				}
+				if verdict.Reproduced && v.Kind == "budget" {
+					if id := kfMatch(kfs, v.Harness, v.Instance); id != "" {
+						a.kfSeen[id] = fmt.Sprintf("%s#%d: %s", v.Harness, v.Instance, verdict.Summary)
+						continue
+					}
+				}
 				if verdict.Reproduced {
 					confirmed++
 					violLines = append(violLines, fmt.Sprintf("VIOLATION property=%s replay=%s", prop, path))
